@@ -135,7 +135,7 @@ func (g *gGen) resum(d *draws, n int) *resumPlan {
 		p.Chunks = []int{1, 1, 1}
 	}
 	for i := 0; i < 4; i++ {
-		p.Actions = append(p.Actions, sub.w(8, 2, 2, 1, 1, 2, 1))
+		p.Actions = append(p.Actions, sub.w(8, 2, 2, 1, 1, 2, 1, 2))
 	}
 	return p
 }
